@@ -23,9 +23,16 @@ From Coq Require Import List Arith Bool.
 From SV Require Model.Creds.
 Import ListNotations.
 
-Inductive loc := Blob (i : nat) | Ext (host n : nat) | Realm (n : nat).
+(* [Rel (Some h) n]: a scheme-relative reference "//host_h/..." given as Location; [Rel None n]: a reference without
+   host (path-absolute "/p", path-relative "p", query-only "?q").  redirect() keeps the Location text VERBATIM as the
+   new target (it does not resolve it against the blob URL), so later requests are built for that text: the request's
+   URL host is h (resp. empty) and, having no http(s) scheme, it cannot be sent: the transport fails. *)
+Inductive loc := Blob (i : nat) | Ext (host n : nat) | Realm (n : nat) | Rel (host : option nat) (n : nat).
+Definition no_host := 900.
 Definition host_of (l : loc) : nat :=
-  match l with Blob i => i | Ext h _ => h | Realm n => 1000 + n end.
+  match l with Blob i => i | Ext h _ => h | Realm n => 1000 + n | Rel (Some h) _ => h | Rel None _ => no_host end.
+(* can the HTTP transport send a request to this URL (absolute http/https URL with a host) *)
+Definition sendable (l : loc) : bool := match l with Rel _ _ => false | _ => true end.
 
 Inductive meth := GET | HEAD | POST.
 
@@ -48,6 +55,9 @@ Inductive resp := Resp (code : nat) (location : option loc) (wf : bool) (ch : ch
 Definition default_resp := Resp 200 None true ChNone.
 Definition next (sc : list resp) : resp * list resp :=
   match sc with [] => (default_resp, []) | r :: t => (r, t) end.
+
+(* what the caller of the inner transport gets for a request to u when the server side would answer r *)
+Definition effective (u : loc) (r : resp) : resp := if sendable u then r else RErr.
 
 (* ================= RegistryHostsFromConfig ================= *)
 Inductive hval := VStr | VList (all_strings : bool) | VBad.   (* type of one configured header value *)
@@ -177,7 +187,8 @@ Definition xfer (creds : nat -> ckind) (a : authz) (m : meth) (u : loc) (h : opt
   match oaz with
   | None => (a1, tq1, RErr, sc1)
   | Some z1 =>
-      let '(r, sc2) := next sc1 in
+      let '(r_, sc2) := next sc1 in
+      let r := effective u r_ in
       let q := mkReq m u h z1 in
       match chal_of r with
       | None => (a1, tq1 ++ [q], r, sc2)
@@ -192,7 +203,7 @@ Definition xfer (creds : nat -> ckind) (a : authz) (m : meth) (u : loc) (h : opt
               | None => (a3, tq1 ++ [q] ++ tq2, RErr, sc3)
               | Some z2 =>
                   let '(r2, sc4) := next sc3 in
-                  (a3, tq1 ++ [q] ++ tq2 ++ [mkReq m u h z2], r2, sc4)
+                  (a3, tq1 ++ [q] ++ tq2 ++ [mkReq m u h z2], effective u r2, sc4)
               end
           end
       end
@@ -349,6 +360,7 @@ Definition micro (fixed : bool) (creds : nat -> ckind) (s : fs) (t : nat) (r : r
           end
       | PT c u h (TSend second z) =>
           let q := mkReq GET u h z in
+          let r := effective u r in
           match chal_of r with
           | Some _ => if second then (finish_at s t c r, [q]) else (set_pc s t (PT c u h (TAdd r)), [q])
           | None => (finish_at s t c r, [q])
@@ -455,6 +467,8 @@ Definition loc_eqb (a b : loc) : bool :=
   | Blob i, Blob j => Nat.eqb i j
   | Ext h i, Ext h' j => Nat.eqb h h' && Nat.eqb i j
   | Realm i, Realm j => Nat.eqb i j
+  | Rel (Some h) i, Rel (Some h') j => Nat.eqb h h' && Nat.eqb i j
+  | Rel None i, Rel None j => Nat.eqb i j
   | _, _ => false
   end.
 Definition onat_eqb (a b : option nat) : bool :=
